@@ -23,7 +23,8 @@ RULE = ("pairs (L, R) of maps / lists / Arrays-of-Hashes / sets / scalars / empt
         "unique} x aoh {all,deep,left,right,unique} x set {left,right,unique} policies (thorough: each pair under all 180 "
         "combinations; quick: a covering sample of 24), given as defaults in args, as [defaults] of an INI file, or "
         "overridden per path through rules= / keys= (top-level and nested paths; also a rule naming one of two equal "
-        "children that sit under the same key in different parents). Non-trivial = the reference merge decides the case (result or "
+        "children that sit under the same key in different parents, also with the two parents arriving as two "
+        "right-hand documents merged in turn by one Merger). Non-trivial = the reference merge decides the case (result or "
         "documented error); distinct by (L, R, policy mix, delivery)")
 ASSUMPTIONS = ["order of keys newly added by the right-hand document is not specified: maps are compared as mappings plus "
                "the relative order of the left-hand keys",
@@ -34,7 +35,7 @@ REACH = [("yamlpath/merger/merger.py", "_merge_dicts,_merge_lists,_merge_simple_
          ("yamlpath/merger/merger.py", "_insert_dict,_insert_list,_insert_set,_insert_scalar,merge_with", "Merger._insert_* / merge_with"),
          ("yamlpath/merger/mergerconfig.py", "hash_merge_mode,array_merge_mode,aoh_merge_mode,set_merge_mode,aoh_merge_key,_prepare_user_rules", "MergerConfig modes")]
 SIZES = {"quick": 200000, "thorough": 4000000}
-REQUIRED_COUNTERS = ["model_decided", "documented_error_cases", "rules_cases", "ini_cases", "twin_rule_cases", "nested_rule_cases"]
+REQUIRED_COUNTERS = ["model_decided", "documented_error_cases", "rules_cases", "ini_cases", "twin_rule_cases", "nested_rule_cases", "sequence_cases"]
 HASHES, ARRAYS, AOH, SETS = ["deep", "left", "right"], ["all", "left", "right", "unique"], \
     ["all", "deep", "left", "right", "unique"], ["left", "right", "unique"]
 ALL_COMBOS = list(itertools.product(HASHES, ARRAYS, AOH, SETS))
@@ -227,6 +228,46 @@ def run_case(ctx, ltext, rtext, combo, delivery, rules=None, keys=None):
         ctx.violation("left-key-order-changed", {"case": case, "summary": "left keys reordered: %r -> %r" % (Lp, got[1])})
 
 
+def run_sequence(ctx, ltext, rtexts, combo, rules):
+    """One Merger absorbing several right-hand documents in turn (what every multi-document mode does): each step
+    is the policy-defined merge of the accumulated document with the next one; per-path rules name paths, so they
+    apply to the node at that path of *each* right-hand document and to nothing else."""
+    try:
+        Ld = yp.load(ltext)
+        Rds = [yp.load(t) for t in rtexts]
+    except yp.LoadError:
+        return
+    if Ld is None or any(r is None for r in Rds):
+        return
+    cfg = dict(hashes=combo[0], arrays=combo[1], aoh=combo[2], sets=combo[3])
+    case = {"lhs": ltext, "rhs_sequence": rtexts, "policies": cfg, "delivery": "args", "rules": rules}
+    model = MM.Model(cfg, rules, None)
+    try:
+        exp = MM.plain(Ld)
+        for Rd in Rds:
+            exp = model.root(exp, MM.plain(Rd))
+    except (MM.Impossible, MM.Unspec):
+        ctx.count("sequence_not_decided")
+        return
+    ctx.evaluations += 1
+    ctx.counters["sequence_cases"] = ctx.counters.get("sequence_cases", 0) + 1
+    ctx.mark_nontrivial([ltext, rtexts, combo, rules])
+    m = Merger(LOG, Ld, MergerConfig(LOG, SimpleNamespace(**cfg), rules=rules))
+    try:
+        for Rd in Rds:
+            m.merge_with(Rd)
+    except (MergeException, YAMLPathException) as e:
+        ctx.violation("sequence/merge-error-for-defined-merge", {"case": case, "summary": str(e)[:150]})
+        return
+    except Exception as e:
+        ctx.violation("sequence/crash/%s@%s" % (type(e).__name__, where(e)), {"case": case, "summary": "%s: %s" % (type(e).__name__, str(e)[:150])})
+        return
+    got = MM.plain(m.data)
+    if MM.norm(exp) != MM.norm(got):
+        d = first_diff(exp, got) or ("", "?")
+        ctx.violation("sequence/differs/%s" % d[1], {"case": case, "summary": "at %s: policies define %r ; got %r" % (d[0] or "/", exp, got)})
+
+
 SEEDS = [("{a: 1, b: [1, 2]}", "{a: 2, b: [2, 3]}", ("deep", "all", "left", "unique")),
          ("[{id: 1}]", "[{id: 2}]", ("deep", "all", "left", "unique")),
          ("[{id: 1}]", "[{id: 2}]", ("deep", "all", "right", "unique")),
@@ -256,8 +297,10 @@ def twin_pair(rng):
     if xl[0] != x[0]:
         xl = x
     ka, kb = rng.sample(["a", "b", "c"], 2)
-    lt = ("map", [(ka, ("map", [("k", xl), ("d", ("s", "1"))])), (kb, ("map", [("k", xl), ("d", ("s", "2"))]))])
-    rt = ("map", [(ka, ("map", [("k", x), ("d", ("s", "1"))])), (kb, ("map", [("k", x), ("d", ("s", "3"))]))])
+    # the two parents differ in another key - or are equal as well: only the path tells the children apart
+    d2l, d2r = ("1", "1") if rng.random() < 0.5 else ("2", "3")
+    lt = ("map", [(ka, ("map", [("k", xl), ("d", ("s", "1"))])), (kb, ("map", [("k", xl), ("d", ("s", d2l))]))])
+    rt = ("map", [(ka, ("map", [("k", x), ("d", ("s", "1"))])), (kb, ("map", [("k", x), ("d", ("s", d2r))]))])
     return lt, rt, "/%s/k" % rng.choice([ka, kb])
 
 
@@ -275,10 +318,13 @@ def run_shard(ctx):
             ltext, rtext = gd.render(lt), gd.render(rt)
             val = rt[1][0][1][1][0][1]
             modes = HASHES if val[0] == "map" else SETS if val[0] == "set" else AOH if (val[1] and val[1][0][0] == "map") else ARRAYS
+            halves = [gd.render(("map", [kv])) for kv in rt[1]]
             for combo in covering_sample(rng, 8):
                 for mode in modes:
                     ctx.count("twin_rule_cases")
                     run_case(ctx, ltext, rtext, combo, "args", {tpath: mode}, None)
+                    # the same content arriving as two right-hand documents merged one after the other by one Merger
+                    run_sequence(ctx, ltext, halves if rng.random() < 0.5 else halves[::-1], combo, {tpath: mode})
             continue
         lt = gen_tree(rng, 0, rng.choice(["map", "map", "map", "seq", "aoh", "set", "scalar"]))
         rt = derive(rng, lt) if rng.random() < 0.75 else gen_tree(rng, 0, rng.choice(["map", "seq", "aoh", "set", "scalar"]))
